@@ -163,8 +163,10 @@ def run(ctx):
     ok = common.lean_step(ctx, MODULES)
     cases = []
     for name, dom, build in fields():
-        if dom == 256 or ctx.thorough or (name.startswith('extension_type') and 'twice' not in name):
+        if dom == 256 or (ctx.thorough and '/n' not in name) or (name.startswith('extension_type') and 'twice' not in name):
             vals = range(dom)
+        elif '/n' in name and ctx.thorough:
+            vals = sorted(set(range(0, dom, 7 if int(name.split('/n')[1]) <= 129 else 61)) | set(common.interesting_values(dom)))
         elif '/n' in name:
             vals = sorted(set(range(0, dom, 251)) | set(range(0, 64)) | {dom - 1, 0x7f12, 0x0a0a, 0xfafa, 0xfe00, 0xff01} | set(common.interesting_values(dom)[::3]))
         else:
